@@ -73,6 +73,11 @@ CHECKS = {
    "Enumerated: all 10935 length-7 call sequences over {again, done, count} from finite(0..3)/infinite against a reference counter. Seeded: VectorSource, FileSource and SigMFSource (recording and tar archive with seeded member order) x data length around and beyond the stream capacity x repeat {0,1,2,3,infinite} under a seeded downstream drain schedule with full outputs and wrap offsets: emitted == data^repeat, EOF exactly then (within 3 calls that had output room), infinite never EOF, VectorSource marker tags once per repetition.",
    "Files hold whole samples; a source is not called again after EOF.",
    "deterministic simulation: seeded downstream consumption schedules + exhaustive small API histories vs reference counter", "5/C16"),
+
+ "C19": ("rig", "exploration",
+   "Blocks defined in the harness crate with the derive macro (sync 1..3 inputs x 1..3 outputs with mixed element types, default and into fields; sync_tag 1x1 and 2x2; a non-sync block with a packet output between two sample outputs) run under the drip-feed environment with uneven inputs and outputs. Every work() call is checked against the documented contract (steps == min over all streams, one sample per stream per step, wait target, values, tags), plus constructor return order and generated eof().",
+   "Harness blocks are compiled by the macro crate in /repo; a macro change that stops them compiling shows as a build failure (exit 2), not as a violation.",
+   "deterministic simulation: seeded drip-feed schedules over harness-defined derive blocks, per-step contract oracle", "5/C19"),
 }
 PENDING_REASON = "check not built yet in this session (planned in DESIGN.md section 5); not a claim that the property is out of reach"
 
@@ -108,7 +113,7 @@ def main():
         "engines": [
             {"name": "mtsim", "path": "sim/src/rt.rs, sim/src/mt.rs, sim/src/graphs.rs", "serves_properties": ["C03", "C04", "C05", "C07"], "kind_free_text": "baton scheduler over real OS threads behind the std shim: one seeded decision per lock/unlock/wait/notify/time-out/spawn/join/atomic point; real MTGraph and streams"},
             {"name": "graphsim", "path": "sim/src/graphsim.rs", "serves_properties": ["C06", "C07"], "kind_free_text": "real Graph::run under virtual time on generated graphs, add-order permutations"},
-            {"name": "rig", "path": "sim/src/rig.rs, sim/src/blocks.rs, sim/src/rigcheck.rs", "serves_properties": ["C08", "C09", "C10", "C11", "C12", "C13", "C15", "C16"], "kind_free_text": "drip-feed environment for one block: harness owns all peers of a real block on real streams; seeded feed/drain/work schedules; virtual time"},
+            {"name": "rig", "path": "sim/src/rig.rs, sim/src/blocks.rs, sim/src/rigcheck.rs", "serves_properties": ["C08", "C09", "C10", "C11", "C12", "C13", "C15", "C16", "C19"], "kind_free_text": "drip-feed environment for one block: harness owns all peers of a real block on real streams; seeded feed/drain/work schedules; virtual time"},
             {"name": "bufsim", "path": "sim/src/bufsim.rs", "serves_properties": ["C01", "C02"], "kind_free_text": "seeded single-thread op-history simulator over Buffer<T> with a deque reference model"},
         ],
         "checks": checks,
